@@ -184,8 +184,8 @@ def pauli_F2_to_index(np0:np.ndarray, with_sign:bool=True):
         for x,y in [((0,1),(1,0)), ((1,0),(1,1)), ((1,1),(0,1))]:
             ind0 = np.all(np0==np.array(y,dtype=np.uint8), axis=1)
             np1[ind0] = np.array(x, dtype=np.uint8)
-        tmp0 = 1<<np.arange(2*num_qubit)[::-1]
-        ret = np1.reshape(N0, num_qubit*2) @ tmp0
+        tmp0 = (np.uint64(1)<<np.arange(2*num_qubit, dtype=np.uint64))[::-1] #uint64: the index of 32 qubits does not fit int64
+        ret = np1.reshape(N0, num_qubit*2).astype(np.uint64) @ tmp0
         ret = ret.reshape(shape[:-1])
     return ret
 
